@@ -14,6 +14,7 @@ Checks
   shuffled_restart  streaming sampler constructed with start_round_num=r
                     reproduces rounds r, r+1, ... of one constructed at 0
 """
+import json
 import os
 import shutil
 import tempfile
@@ -507,6 +508,64 @@ def shuffled_strategy(draw, tier):
           'rounds': draw(st.integers(1, 4))}
 
 
+# ------------------------------------------------- restart in a new process
+
+def _child_sample(spec):
+  """Runs in a fresh interpreter: the cohorts of rounds r..r+k-1 as JSON."""
+  case = spec['case']
+  with Backend(case) as be:
+    fd = be.open()
+    sampler = fedjax.client_samplers.UniformGetClientSampler(
+        fd, case['cohort'], case['seed'])
+    out = []
+    for r in spec['rounds']:
+      sampler.set_round_num(r)
+      clients = sampler.sample()
+      out.append([[cid.hex(), np.asarray(jax.random.key_data(k)).tobytes().hex(),
+                   int(len(ds))] for cid, ds, k in clients])
+  return out
+
+
+def run_cross_process(case):
+  """A restart is a NEW PROCESS: nothing process-specific (such as the hash
+  randomisation of bytes/str, which changes the iteration order of sets and
+  dicts keyed by client ids) may influence what round r returns."""
+  import subprocess
+  import sys
+  from vf import env as _env
+  rounds = case['rounds']
+  here = _child_sample({'case': case, 'rounds': rounds})
+  outs = []
+  for hs in case['hashseeds']:
+    env = _env.worker_env()
+    env['PYTHONHASHSEED'] = str(hs)
+    p = subprocess.run(
+        [sys.executable, '-m', 'vf.props.c13', json.dumps({'case': case, 'rounds': rounds})],
+        env=env, cwd=_env.VERIF_DIR, capture_output=True, text=True, timeout=900)
+    line = [l for l in p.stdout.splitlines() if l.startswith('@@C13@@')]
+    if p.returncode != 0 or not line:
+      raise Violation('restart:child_process_failed', p.stderr[-800:])
+    outs.append(json.loads(line[0][7:]))
+  for hs, other in zip(case['hashseeds'], outs):
+    for r, a, b in zip(rounds, here, other):
+      require([x[0] for x in a] == [x[0] for x in b], 'restart_in_new_process:ids',
+              lambda: f'round {r}: PYTHONHASHSEED={hs} gives {[x[0] for x in b]}, '
+                      f'this process {[x[0] for x in a]}')
+      require(a == b, 'restart_in_new_process:keys_or_sizes', f'round {r} PYTHONHASHSEED={hs}')
+  return []
+
+
+@st.composite
+def cross_process_strategy(draw, tier):
+  clients = draw(clients_strategy(10, nmins=(4, 6, 8)))
+  n = len(clients)
+  return {'backend': draw(st.sampled_from(['memory', 'memory', 'sqlite', 'subset'])),
+          'clients': clients, 'seed': draw(seed_strategy()),
+          'cohort': draw(cohort_strategy(n)),
+          'rounds': draw(st.lists(st.integers(0, 40), min_size=2, max_size=4)),
+          'hashseeds': draw(st.lists(st.integers(1, 10**6), min_size=2, max_size=2, unique=True))}
+
+
 CHECKS = [
     Check(name='get_history', run=run_history, strategy=history_strategy,
           labels=history_labels, nontrivial=history_nontrivial,
@@ -528,4 +587,17 @@ CHECKS = [
           doc='UniformShuffledClientSampler(start_round_num=r) over a re-seeded '
               'shuffled_clients stream reproduces rounds r, r+1, ... of a '
               'sampler started at round 0'),
+    Check(name='restart_in_new_process', run=run_cross_process,
+          strategy=cross_process_strategy,
+          labels=lambda c: ['backend:' + c['backend']],
+          nontrivial=lambda c, ls: c['cohort'] >= 2,
+          budget={'quick': 16, 'thorough': 320}, time_share=0.6,
+          doc='UniformGetClientSampler seated at round r in two fresh interpreter '
+              'processes with different PYTHONHASHSEED returns the same ids, '
+              'sizes and keys as in this process (a restart is a new process)'),
 ]
+
+
+if __name__ == '__main__':
+  import sys as _sys
+  print('@@C13@@' + json.dumps(_child_sample(json.loads(_sys.argv[1]))))
